@@ -7,6 +7,7 @@ package main
 import (
 	"fmt"
 	"go/token"
+	"go/types"
 	"sort"
 	"strings"
 
@@ -112,6 +113,13 @@ func runC07(c *Ctx, r *Report) {
 		s := rs.Of(c.SSAFunc(e.Funcs["ternaryFunc"])).Kinds()
 		r.Check(!s.Has("FLOAT"), "R07.4", "function "+name, c.Rel(e.Pos), s.String(), name+" can return a float: "+s.String())
 	}
+
+	// ---- R07.10
+	var dotKernel *types.Func
+	if o := ot["./"]; o != nil {
+		dotKernel = o.Tab.Cell(K_INT, K_INT)
+	}
+	c07UnfitQuotient(c, r, dotKernel)
 
 	// ---- R07.5 operator signature
 	r.Rule("R07.5", "operator signature of the kernels: no two operators share a disposition matrix, and the numeric kernels ((INT|FLOAT)×(INT|FLOAT)) of each operator apply the Go operator the DSL operator denotes to values derived from both operands, left operand on the left for the non-commutative ones (+ ADD, - SUB, * MUL, / and // QUO, % REM, & AND, | OR, ^ XOR, << SHL, >> and >>> SHR, relational LSS/LEQ/GTR/GEQ/EQL/NEQ, min/max a comparison or math.Min/Max)")
